@@ -20,7 +20,7 @@ def run(chk):
     rng = chk.rng.fork("c01")
     progs, icases = [], []
     for i in range(n):
-        p = asm_gen.gen_frozen_prog(rng) if rng.chance(0.03) else asm_gen.gen_scope_prog(rng) if rng.chance(0.04) else asm_gen.gen_tie_prog(rng) if rng.chance(0.04) else asm_gen.gen_prog(rng, size_static=True, collide=rng.chance(0.1), boundary=rng.chance(0.5), tame=rng.chance(0.8))
+        p = asm_gen.gen_frozen_prog(rng) if rng.chance(0.03) else asm_gen.gen_scope_prog(rng) if rng.chance(0.04) else asm_gen.gen_tie_prog(rng) if rng.chance(0.04) else asm_gen.gen_chain_prog(rng) if rng.chance(0.08) else asm_gen.gen_prog(rng, size_static=True, collide=rng.chance(0.1), boundary=rng.chance(0.5), tame=rng.chance(0.8))
         s, m = rng.chance(0.7), rng.chance(0.7)
         progs.append((p, s, m))
         icases.append((p.text(), 30, s, m))
@@ -56,6 +56,32 @@ def run(chk):
                           dict(rep, theorems=["C01_sound_partial", "C01_denote_certified"]), found=False)
         if i % 700 == 2:
             chk.sample({"program": text, "impl": a[:300], "denote": d[:300]})
+    # ---- C01_complete: whatever the definition accepts, the implementation (static optimisation off, as in the theorem)
+    # assembles to the same answer within the proved budget `budget_total` (extracted Spec/Chain.v); one pass less than
+    # the tight syntactic bound is probed too (tightness is informational: the theorem only gives an upper bound)
+    vlib.extraction("ExChain")
+    chain_exe = vlib.ocaml_build("chain_driver", ["chain_model"])
+    ba = vlib.run_lines([chain_exe], [p.model_line(30, m) for (p, s, m) in progs])
+    bcases, bmeta = [], []
+    for i, ((p, s, m), d, b) in enumerate(zip(progs, da, ba)):
+        cd, f = asm_gen.canon_model(d), b.split('\t')
+        if cd[0] == 'OK' and f[0] == 'BOUND':
+            B = int(f[1])
+            bcases.append((icases[i][0], B, False, m)); bmeta.append((i, B, cd, f[2]))
+    bi = R.impl(bcases, "debug")
+    tight = R.impl([(t, max(B - 1, 1), False, m) for (t, B, _, m) in bcases], "debug")
+    ntight = 0
+    for (i, B, cd, synt), a, at in zip(bmeta, bi, tight):
+        ci = asm_gen.canon_impl(a)
+        if asm_streams.sig(ci) != asm_streams.sig(cd) or (ci[0] == 'OK' and ci[2] > B):
+            chk.violation("C01_complete: the definition accepts the program but the implementation does not assemble it to the same answer within budget_total = %d: impl %s definition %s"
+                          % (B, str(ci)[:200], str(asm_streams.sig(cd))[:200]),
+                          {"kind": "program", "program": icases[i][0], "budget": B, "static_opt": False,
+                           "matcher_opt": progs[i][2], "impl": a[:2000], "denote": da[i][:2000],
+                           "syntactic_bound": synt, "theorems": ["C01_complete"]})
+        if not at.startswith("OK"):
+            ntight += 1
+    chk.count("budget_bound", len(bcases), undefined_syntactic=sum(1 for m_ in bmeta if m_[3] == '-'), fails_one_pass_below=ntight)
     chk.count("programs", len(progs), **dist)
     chk.cov["traces_validated_against_impl"] = len(progs)
     chk.cov["disagreements_checked"] = ndis
